@@ -16,6 +16,12 @@ mod shapes;
 #[path = "../c11/graph.rs"]
 #[allow(dead_code)]
 mod graph;
+#[path = "../c02/expr.rs"]
+#[allow(dead_code, unused_imports, unused_variables)]
+mod expr;
+#[path = "../c03/stmt.rs"]
+#[allow(dead_code, unused_imports, unused_variables)]
+mod stmt;
 
 use mccore::engine::{self, Out};
 use mccore::vals::{self, V};
@@ -444,6 +450,75 @@ fn main() {
                     let prog = Program { templates: tpls.clone(), entry: name.clone(), blocks: vec!["b".into()], components: vec![] };
                     totality(&t, &prog, &ctx, acc, "graphs-totality", "graph", true, &|| json!({"templates": tpls, "entry": name}));
                 }
+            },
+        );
+    }
+
+    // ------------------------------------------------------------ reuse: C02 / C03 program spaces
+    const SHARDS: u64 = 32;
+    run.family(
+        Family::new(
+            "reuse-c02-expressions",
+            SHARDS,
+            "every program of C02's P (operator pairs; thorough: triples, capped leaf assignments), S, U, T, L families with its own context, under the totality oracle",
+        ),
+        |item, acc: &mut Acc| {
+            let mut idx = 0u64;
+            let cap = if thorough { 4 } else { 6 };
+            expr::families::for_each_program(thorough, cap, &mut |case| {
+                idx += 1;
+                if idx % SHARDS != item {
+                    return;
+                }
+                let prog = Program { templates: vec![("main.html".into(), case.source())], entry: "main.html".into(), blocks: vec![], components: vec![] };
+                let Ok(t) = build(&prog) else {
+                    acc.case(false, "rejected");
+                    return;
+                };
+                let ctx = case.context();
+                totality(&t, &prog, &ctx, acc, "reuse-c02-expressions", "c02-program", true, &|| {
+                    json!({"id": case.id, "template": case.source(), "bindings": case.describe_bindings()})
+                });
+            });
+        },
+    );
+    let stmt_fams: Vec<(&str, u64, fn(u64, bool, &mut stmt::fam::Emit<'_>))> = {
+        let mut v: Vec<(&str, u64, fn(u64, bool, &mut stmt::fam::Emit<'_>))> = vec![
+            ("reuse-c03-f5-jump-patching", stmt::fam::f5_items(thorough), stmt::fam::f5_decode),
+            ("reuse-c03-f4-captures", stmt::fam::f4_items(false), stmt::fam::f4_decode),
+        ];
+        if thorough {
+            v.push(("reuse-c03-f2-loops", stmt::fam::f2_items(thorough), stmt::fam::f2_decode));
+        }
+        v
+    };
+    for (name, items, decode) in stmt_fams {
+        let th = thorough && name != "reuse-c03-f4-captures";
+        run.family(
+            Family::new(name, items, "the complete C03 family of the same name (every program, every binding, every placement), under the totality oracle"),
+            |item, acc: &mut Acc| {
+                decode(item, th, &mut |g: stmt::Group<'_>| {
+                    let templates = g.program.sources();
+                    let mut t = Tera::default();
+                    if !engine::add_templates(&mut t, &templates).is_ok() {
+                        acc.case(false, "rejected");
+                        return;
+                    }
+                    for b in g.bindings.iter().filter(|b| b.global.is_empty()) {
+                        let mut ctx = Context::new();
+                        for (k, v) in &b.ctx {
+                            if *v != V::Undef {
+                                ctx.insert_value(k.clone(), v.to_tera());
+                            }
+                        }
+                        for entry in &g.program.entries {
+                            let prog = Program { templates: templates.clone(), entry: entry.clone(), blocks: vec![], components: vec![] };
+                            totality(&t, &prog, &ctx, acc, name, "c03-program", true, &|| {
+                                json!({"templates": templates, "entry": entry, "bindings": b.json()})
+                            });
+                        }
+                    }
+                });
             },
         );
     }
